@@ -174,6 +174,8 @@ class ProgGen:
         t = self.t
         opts = [("int", 3), ("double", 3), ("bool", 1), ("size_t", 1), ("string", 2), ("Vector", 2),
                 ("Matrix", 1), ("Point2", 0.7), ("Point3", 0.7)]
+        if self.f.get("char_types", True):
+            opts.append(("char", 0.6))
         klasses = [k for k in self.p.classes if getattr(k, "tpl", None) is None]   # instantiations are not named as types
         if allow_class and klasses:
             opts.append(("<class>", 5))
@@ -198,6 +200,8 @@ class ProgGen:
                 ("Matrix", 1), ("Point2", 0.5), ("Point3", 0.5)]
         if allow_void:
             opts.insert(0, ("void", 4))
+        if self.f.get("char_types", True):
+            opts.append(("char", 0.5))
         plain = [k for k in self.p.classes if getattr(k, "tpl", None) is None]
         if plain:
             opts.append(("<class>", 5))
@@ -635,7 +639,8 @@ class ProgGen:
 
 
 def _mclass(ty):
-    return {"int": "numeric", "size_t": "numeric", "double": "double", "bool": "logical", "string": "char"}[ty.name]
+    return {"int": "numeric", "size_t": "numeric", "double": "double", "bool": "logical", "string": "char",
+            "char": "char"}[ty.name]
 
 
 def _guard_sig(f):
@@ -860,6 +865,7 @@ inline std::string hexd(double d) { unsigned char b[8]; std::memcpy(b, &d, 8); s
   std::string s; for (int i = 0; i < 8; ++i) { s.push_back(h[b[i] >> 4]); s.push_back(h[b[i] & 15]); } return s; }
 inline std::string enc(int v) { return "i:" + std::to_string(v); }
 inline std::string enc(size_t v) { return "z:" + std::to_string(v); }
+inline std::string enc(char v) { return "c:" + std::to_string((int)(unsigned char)v); }
 inline std::string enc(bool v) { return std::string("b:") + (v ? "1" : "0"); }
 inline std::string enc(double v) { return "d:" + hexd(v); }
 inline std::string enc(const std::string& v) { std::string s = "s:"; static const char* h = "0123456789abcdef";
@@ -894,6 +900,7 @@ inline void leave(Event& e) { S().trace.push_back(e); }
 inline long tick() { return ++S().counter; }
 inline int ret_int() { return (int)(1000 + tick()); }
 inline size_t ret_size() { return (size_t)(5000000000ULL + tick()); }
+inline char ret_char() { return (char)(33 + tick() % 90); }
 inline bool ret_bool() { return tick() % 2 == 0; }
 inline double ret_double() { return 0.25 + (double)tick(); }
 inline std::string ret_string() { return "r" + std::to_string(tick()); }
@@ -951,7 +958,7 @@ def _ret_expr(r, e="e"):
         if r.name == "void":
             return "e.ret = \"void\";"
         fn = {"int": "ret_int()", "size_t": "ret_size()", "bool": "ret_bool()", "double": "ret_double()",
-              "string": "ret_string()"}[r.name]
+              "string": "ret_string()", "char": "ret_char()"}[r.name]
         return "auto rv = lib::%s; e.ret = lib::enc(rv);" % fn
     if r.kind == "eig":
         if r.name == "Matrix":
